@@ -423,3 +423,10 @@ def run(ck):
     import rules.c11 as c11
     s11 = _core6.Shared(ck, 'R18.3', lambda r, k: r == 'R11.9', 'C11:', ' [a component rooted at QComboBox is a combo box]')
     c11.run(s11)
+
+    # "X.qml is usable as type X": an instance `X { }` is read as an object whatever letters X starts with (C20 R20.10)
+    import rules.c20 as c20
+    ck.rule('R18.8', 'a component is usable as a child object whatever script its name is written in (shared with C20)')
+    s20 = _core6.Shared(ck, 'R18.8', lambda r, k: r == 'R20.10', 'C20:', ' [`Éditeur.qml` is registered as type Éditeur; `Éditeur { }` inside another object must be an object, not a grouped binding]')
+    c20.run(s20)
+    ck.floor('R18.8', s20.count, 2, 'shared C20 R20.10 obligations')
